@@ -84,6 +84,9 @@ def _patches(pid):
         items.append(('mutants/%s/%s' % (pid, os.path.basename(pp)), pp, 'break', True))
     for pp in sorted(glob.glob(os.path.join(VERIF, 'mutants', 'benign', '*.patch'))) + \
             sorted(glob.glob(os.path.join(VERIF, 'benign', '*', 'patch.diff'))):
+        ad = os.path.join(os.path.dirname(pp), 'patch.adapted.diff')
+        if os.path.exists(ad):
+            pp = ad             # re-based on a later fix: commit of /repo
         rel = os.path.relpath(pp, VERIF)
         items.append((rel, pp, 'benign', True))
     return items
